@@ -516,7 +516,15 @@ class Gen(object):
             return self.g_cfg_new()
         op = self.g_new()
         op.pop('dtype', None)
-        op['kw'] = {}
+        if self.rng.random() < 0.5:
+            op['kw'] = {}             # else: keyword overrides on top of the passed Config
+        else:
+            op['kw'] = {k: v for k, v in op['kw'].items() if k not in ('scale', 'bias')}
+        if self.rng.random() < 0.3:
+            k, _ = self.pick()
+            if k is not None:
+                op['cfg_slot'] = k    # config=<the Config of a live object>
+                return op
         op['cfg'] = self.rng.randrange(len(self.w.configs))
         return op
 
@@ -675,9 +683,13 @@ class Gen(object):
         if op['route'] == 'fn':
             if r.random() < 0.5:
                 op['sizing'] = r.choice(SIZINGS)
-            if r.random() < 0.2:
+            q = r.random()
+            if q < 0.2:
                 ko, _ = self.pick(self.is_real)
                 op['out'] = ko
+            elif q < 0.45:
+                ko, _ = self.pick(self.is_real)
+                op['out_like'] = ko
         return op
 
     def g_npfunc(self):
@@ -849,6 +861,12 @@ class Gen(object):
             elif f[1] - f[2] >= 0:
                 op['dtype'] = '%s%d.%d' % (r.choice(['Q', 'S', 'q']) if f[0] else r.choice(['UQ', 'U', 'uq']),
                                            f[1] - f[2], f[2])
+        elif r.random() < 0.15:
+            # n_int with exactly one other size (and possibly a sign change)
+            ni = f[1] - f[2] - (1 if f[0] else 0)
+            op['n_int'] = ni
+            op['fmt'] = [f[0] if (f[0] != cur[0] or r.random() < 0.5) else None] + \
+                ([f[1], None] if r.random() < 0.5 else [None, f[2]])
         elif r.random() < 0.3:
             part = list(f)
             if part[0] == cur[0]:
@@ -875,8 +893,10 @@ class Gen(object):
             return self.g_new()
         o = self.w.slots[i].obj
         n = r.randint(2, o.n_word) if r.random() < 0.9 or 'F2' not in self.p.faults else o.n_word + 1
-        return {'op': 'from_bin', 'slot': k, 'bits': ''.join(r.choice('01') for _ in range(n)),
-                'raw': r.random() < 0.2}
+        bits = ''.join(r.choice('01') for _ in range(n))
+        if r.random() < 0.12:
+            bits = '-' + bits       # explicit sign in front of the literal (legal; negates it)
+        return {'op': 'from_bin', 'slot': k, 'bits': bits, 'raw': r.random() < 0.3}
 
     def g_config_set(self, fields=None):
         r = self.rng
